@@ -337,8 +337,12 @@ def run(rep, tier, seed, replay):
                        "modelled not verified: SHA-1 (Section variable in Coq; OCaml SHA-1 in ocaml/c15_driver.ml vs utils/sha1.h in the harness), "
                        "std::map/unordered_map as sorted/assoc lists, libstdc++ std::partition (bidirectional variant) as hoare_partition, "
                        "the parent/child pointer chain as a list of bucket keys",
-                       "not modelled: DhtServer transactions/searches/packet queues (pings and find_node searches started by the router have "
-                       "no routing-table effect until a reply/timeout arrives; those arrive as explicit Q/R/I ops), datagram parsing",
+                       "datagram level: the dispatcher (event_read checks, process_query, create_*_response, create_error) is modelled over DECODED "
+                       "messages; static_map_read_bencode / bencode writing are not modelled (the harness encodes the case's fields with sorted keys, "
+                       "the real server parses them; C07/C14 cover the codecs)",
+                       "not modelled: DhtServer transactions/searches/packet queues and y=r / y=e datagrams (pings and find_node searches started by "
+                       "the router have no routing-table effect until a reply/timeout arrives; those arrive as explicit Q/R/I ops); the 15 s reply "
+                       "queue age limit and the 1024-packet reply queue cap (the harness flushes after every datagram)",
                        "python oracle props/c15.py (table invariant, token window, announce-then-get) on implementation outputs",
                        "little-endian host for the in-memory layout of SocketAddressCompact.port"]))
     model = ltv.build_model("C15")
@@ -367,7 +371,7 @@ def run(rep, tier, seed, replay):
         m = mo[i] if i < len(mo) else "MISSING"
         o = io[i] if i < len(io) else "MISSING"
         nevals += max(0, len(case.split()) - 5)
-        if o.split("END ")[-1].count(" B[") >= 2 or " v=" in o:
+        if o.split("END ")[-1].count(" B[") >= 2 or " v=" in o or "U:r t=" in o:
             nontrivial.add(hashlib.sha1(case.encode()).digest())
         if len(samples) < 4 and i % 61 == 7:
             samples.append({"case": case[:300], "impl": o[-300:]})
@@ -397,9 +401,10 @@ def run(rep, tier, seed, replay):
     rep.cov.update(evaluations=nevals, cases=len(cases), distinct_nontrivial=len(nontrivial),
                    rule="evaluations = ops executed on both sides (each followed by a checksum of the full state dump); "
                         "non-trivial case = distinct case line after which the implementation's table has at least two buckets "
-                        "(a split happened) or in which get_peers returned peer values",
+                        "(a split happened), or in which get_peers returned peer values, or in which the real server answered a datagram with a normal reply",
                    samples=samples, input_distribution=stats, mismatches=mism, violation_classes=per_class, exhaustive=(tier == "thorough"),
                    exhaustive_scope="thorough: all op sequences of length <= 4 over a 7-op alphabet on a full own bucket (2801 cases)")
-    rep.assumptions += ["virtual time below 2^32 seconds", "IPv4 only (the code drops everything else)",
+    rep.assumptions += ["virtual time below 2^32 - 1 seconds (no_internal_error / only_own_bucket_splits need it: find_replacement_candidate "
+                        "returns no node when every last-seen time is 2^32 - 1)", "IPv4 only (the code drops everything else)",
                         "contact ops never carry the router's own id (DhtServer::event_read rejects such packets)",
                         "fewer than 2^32 consecutive failed queries to one node"]
